@@ -157,3 +157,59 @@ func elemAt(v ssa.Value, idx ssa.Value) *ssa.IndexAddr {
 	}
 	return ia
 }
+
+func init() {
+	register(&Rule{
+		Name:   "CHUNK-START-INCLUSIVE",
+		Floor:  0,
+		ZeroOK: true,
+		Doc:    "a chunk of the integer streams covers the document numbers [k*chunkSize, (k+1)*chunkSize): wherever a document number is compared with the first number of a chunk (a product of a chunk index and the chunk size), the comparison includes that first number on the chunk's side - `doc >= start` / `doc < start`, never `doc > start` / `doc <= start` - otherwise the entry of the posting that opens a chunk is attributed to the wrong side",
+		Run: func(c *Ctx, scope string, r *Report) {
+			isChunkStart := func(v ssa.Value) bool {
+				bin, ok := stripConv(v).(*ssa.BinOp)
+				if !ok || bin.Op != token.MUL {
+					return false
+				}
+				sx, sy := exprSig(bin.X, 0), exprSig(bin.Y, 0)
+				return (sx == ".chunkSize") != (sy == ".chunkSize")
+			}
+			for _, fn := range c.srcFns {
+				for _, b := range fn.Blocks {
+					for _, ins := range b.Instrs {
+						bin, ok := ins.(*ssa.BinOp)
+						if !ok {
+							continue
+						}
+						var strict bool
+						switch {
+						case isChunkStart(bin.Y) && !isChunkStart(bin.X):
+							switch bin.Op {
+							case token.GEQ, token.LSS:
+							case token.GTR, token.LEQ:
+								strict = true
+							default:
+								continue
+							}
+						case isChunkStart(bin.X) && !isChunkStart(bin.Y):
+							switch bin.Op {
+							case token.LEQ, token.GTR:
+							case token.LSS, token.GEQ:
+								strict = true
+							default:
+								continue
+							}
+						default:
+							continue
+						}
+						key := fnName(fn) + "/chunk-start-compare"
+						if strict {
+							r.bad(key, fnName(fn), c.pos(bin.Pos()), "a document number is compared with the first number of a chunk by "+bin.Op.String()+", which puts the posting that opens the chunk on the wrong side: its freq/norm/location entry is not skipped (or skipped twice), and the following postings of the chunk are decoded out of step")
+						} else {
+							r.ok(key, fnName(fn), c.pos(bin.Pos()), "the chunk's first document number counts as inside the chunk")
+						}
+					}
+				}
+			}
+		},
+	})
+}
